@@ -507,7 +507,7 @@ func (h *H) sqCase(t *T, extra ...string) {
 			commentFn = h.someComment
 			tags = append(tags, "comments-in-template")
 		}
-		src := "^" + t.Src(sugar)
+		src := "^" + afterPrefix() + t.Src(sugar)
 		if !sugar {
 			src = "(syntaxQuote " + t.Src(false) + ")"
 		}
